@@ -325,6 +325,12 @@ class ConcreteCtx:
     def skolem(self, name):
         return 0
 
+    def choice(self, n):
+        """contract-level case split: a random alternative on concrete runs"""
+        k = self.gen.rnd.randrange(n)
+        self.gen.used["choice%d" % len([x for x in self.gen.used if x.startswith("choice")])] = k
+        return k
+
     # state access ---------------------------------------------------------------------------------
     def data(self, f):
         return f.getvalue()
@@ -468,6 +474,8 @@ def run_contract_concrete(ct, gen, fn_override=None):
         for p in qn.split("."):
             obj = getattr(obj, p)
         fn = obj
+    if isinstance(fn, property):
+        fn = fn.fget
     outcome = None
     try:
         result = fn(*args, **kwargs)
